@@ -1,4 +1,4 @@
-import TinsModel.Wire.Chain.ParseLinkIp6
+import TinsModel.Wire.Chain.ParseLinkWifi
 /-
   **Whole-packet C03 over all covered families, as stated** — "if libtins accepts a byte string, parsing the serialization of
   the parsed packet yields the same stack of layers with the same field values, options and payload; only derived fields may
@@ -47,14 +47,15 @@ def Residual (x : AnyObj) (r : List AnyObj) : Prop :=
       p.OptsWire (tailBytes r) ∧
       (Icmp.Icmp6.extAllowed p.type = true →
         Icmp.ghostFree (Icmp.byteAt (p.unBytes (Icmp.Icmp4.innerOf (sizeOfStack r))) 0 * 8) (tailBytes r))
-  | _ => False                                                  -- App, Wifi: not covered
+  | .app _ => True                                              -- ARP, STP, VXLAN, RTP, BootP, DHCP, DHCPv6: nothing excluded
+  | .wifi (.eapol e) =>                                         -- a key frame that fits its 16-bit length field, and not
+      (e.key = [] → Wifi.Eapol.beAt e.sub (Wifi.Eapol.keyLenOff e.rsn) 2 = 0) ∧     -- "key length > bytes present"
+      e.hdrSize + sizeOfStack r < 65540
+  | .wifi _ => True                                             -- RadioTap, the Dot11 classes: nothing excluded
 
 def ResidualAll : List AnyObj → Prop
   | [] => True
   | x :: r => Residual x r ∧ ResidualAll r
-
-theorem residual_cases (x : AnyObj) (r : List AnyObj) (h : Residual x r) : isRaw x = true ∨ Coverable x := by
-  cases x <;> first | exact .inl rfl | exact .inr trivial | exact h.elim
 
 /-- what parsing one layer establishes -/
 structure FirstOK (cls : String) (b : Bytes) (o : AnyObj) (inner : Inner) : Prop where
@@ -62,8 +63,9 @@ structure FirstOK (cls : String) (b : Bytes) (o : AnyObj) (inner : Inner) : Prop
   ser : registryPreds.Ser o
   side : ∀ r, Residual o r → Side o r
   link : LinkInnerA o inner
-  name : o.info.1 = cls
+  name : EntryName cls o
   nib : NibOf o b
+  cov : Coverable o
 
 theorem getD_take_zero (b : Bytes) (n : Nat) (hn : 0 < n) : (b.take n).getD 0 0 = b.getD 0 0 := by
   cases b with
@@ -153,55 +155,76 @@ theorem icmp6_parse_small (b : Bytes) (p : Icmp.Icmp6) (i : Inner) (h : Icmp.Icm
   subst hq
   exact ⟨readU8_lt _ _ _ h1, readU8_lt _ _ _ h2'⟩
 
-/-- **parsing one layer of a covered class establishes everything `LayerOK` asks for, up to `Residual`** -/
+/-- **parsing one layer of any class establishes everything `LayerOK` asks for, up to `Residual`** -/
 theorem parseOne_firstOK (cls : String) (b : Bytes) (o : AnyObj) (inner : Inner) (hb : b.length < 4294967296)
-    (hcov : Coverable o) (hl2 : ∀ z, o = .l2 z → L2.Serializable z) (h : parseOne cls b = .ok (o, inner)) :
+    (hnr : isRaw o = false) (hl2 : ∀ z, o = .l2 z → L2.Serializable z) (h : parseOne cls b = .ok (o, inner)) :
     FirstOK cls b o inner := by
   have hgood := parseOne_good registryParseFacts cls b o inner hb h
   rcases parseOne_cases cls b o inner h with ⟨_, ho, _⟩ | ⟨x, hc, hx, ho⟩ | ⟨x, hc, hx, ho⟩ | ⟨x, hc, hx, ho⟩ | ⟨x, hc, hx, ho⟩ |
     ⟨x, hc, hx, ho⟩ | ⟨x, hc, hx, ho⟩ | ⟨x, hc, hx, ho⟩ <;> subst ho
-  · exact hcov.elim
+  · cases hnr
   · -- L2
     have hs := hl2 x rfl
     have hlk := L2.l2_parse_link cls b x inner hc hx hs
-    exact ⟨hgood.1, hs, fun _ _ => trivial, l2_parse_linkA cls b x inner hc hx hs, hlk.2.1, trivial⟩
+    exact ⟨hgood.1, hs, fun _ _ => trivial, l2_parse_linkA cls b x inner hc hx hs, .inl hlk.2.1.symm, trivial, trivial⟩
   · -- Ip
     have hser := Ip.ip_parse_serializable cls b x inner hc hx
     simp only [Ip.classes, List.mem_cons, List.mem_nil_iff, or_false] at hc
     rcases hc with hc | hc | hc <;> subst hc <;> simp only [Ip.parse] at hx <;>
       rcases Ip.map_ok hx with ⟨⟨y, j⟩, hy, hr⟩ <;> injection hr with e1 e2 <;> subst e1 <;> subst e2
-    · exact ⟨hgood.1, hser, fun r hr => ⟨(Ip.ip4_parse_inv b y j hy).2.1, hr⟩, ip4_parse_linkA b y j hy, rfl,
-        ip4_parse_version b y j hy⟩
-    · exact ⟨hgood.1, hser, fun _ _ => (Ip.ah_parse_inv b y j hy).2, ah_parse_linkA b y j hy, rfl, trivial⟩
-    · exact ⟨hgood.1, hser, fun _ _ => trivial, esp_parse_linkA b y j hy, rfl, trivial⟩
+    · exact ⟨hgood.1, hser, fun r hr => ⟨(Ip.ip4_parse_inv b y j hy).2.1, hr⟩, ip4_parse_linkA b y j hy, .inl rfl,
+        ip4_parse_version b y j hy, trivial⟩
+    · exact ⟨hgood.1, hser, fun _ _ => (Ip.ah_parse_inv b y j hy).2, ah_parse_linkA b y j hy, .inl rfl, trivial, trivial⟩
+    · exact ⟨hgood.1, hser, fun _ _ => trivial, esp_parse_linkA b y j hy, .inl rfl, trivial, trivial⟩
   · -- Ip6
     simp only [Ip6.classes, List.mem_cons, List.mem_nil_iff, or_false] at hc
     subst hc
     simp only [Ip6.parse] at hx
     rcases Ip.map_ok hx with ⟨⟨y, j⟩, hy, hr⟩
     injection hr with e1 e2; subst e1; subst e2
-    exact ⟨hgood.1, trivial, fun r hr => ⟨(Ip6.ipv6_parse_inv b y j hy).2, hr⟩, ip6_parse_linkA b y j hy, rfl,
-      ip6_parse_version b y j hy⟩
+    exact ⟨hgood.1, trivial, fun r hr => ⟨(Ip6.ipv6_parse_inv b y j hy).2, hr⟩, ip6_parse_linkA b y j hy, .inl rfl,
+      ip6_parse_version b y j hy, trivial⟩
   · -- Icmp
     have hser := Icmp.icmp_family_parse_serializable cls b x inner hc hb hx
     simp only [Icmp.classes, List.mem_cons, List.mem_nil_iff, or_false] at hc
     rcases hc with hc | hc <;> subst hc <;> simp only [Icmp.parse] at hx <;>
       rcases Ip.map_ok hx with ⟨⟨y, j⟩, hy, hr⟩ <;> injection hr with e1 e2 <;> subst e1 <;> subst e2
-    · exact ⟨hgood.1, hser, fun _ hr => ⟨icmp_parse_small b y j hy, hr.1, hr.2⟩, icmp_parse_linkA b y j hy, rfl, trivial⟩
-    · exact ⟨hgood.1, hser, fun _ hr => ⟨icmp6_parse_small b y j hy, hr.1, hr.2⟩, icmp6_parse_linkA b y j hy, rfl, trivial⟩
+    · exact ⟨hgood.1, hser, fun _ hr => ⟨icmp_parse_small b y j hy, hr.1, hr.2⟩, icmp_parse_linkA b y j hy, .inl rfl, trivial,
+        trivial⟩
+    · exact ⟨hgood.1, hser, fun _ hr => ⟨icmp6_parse_small b y j hy, hr.1, hr.2⟩, icmp6_parse_linkA b y j hy, .inl rfl, trivial,
+        trivial⟩
   · -- Transport
     have hser := Transport.transport_parse_serializable cls b x inner hc hx
     simp only [Transport.classes, List.mem_cons, List.mem_nil_iff, or_false] at hc
     rcases hc with hc | hc <;> subst hc <;> simp only [Transport.parse] at hx <;>
       rcases Ip.map_ok hx with ⟨⟨y, j⟩, hy, hr⟩ <;> injection hr with e1 e2 <;> subst e1 <;> subst e2
-    · exact ⟨hgood.1, hser, fun _ _ => trivial, udp_parse_linkA b y j hy, rfl, trivial⟩
-    · exact ⟨hgood.1, hser, fun _ _ => (Transport.tcp_parse_ok b y j hy).2.1, tcp_parse_linkA b y j hy, rfl, trivial⟩
-  · exact hcov.elim
-  · exact hcov.elim
+    · exact ⟨hgood.1, hser, fun _ _ => trivial, udp_parse_linkA b y j hy, .inl rfl, trivial, trivial⟩
+    · exact ⟨hgood.1, hser, fun _ _ => (Transport.tcp_parse_ok b y j hy).2.1, tcp_parse_linkA b y j hy, .inl rfl, trivial,
+        trivial⟩
+  · -- App
+    have hser := App.app_parse_serializable cls b x inner hc hb hx
+    obtain ⟨hside, hlink, hname⟩ := app_parse_facts cls b x inner hc hx
+    refine ⟨hgood.1, hser, fun r _ => hside r, hlink, .inl hname.symm, ?_, ?_⟩
+    · cases x <;> trivial
+    · cases x <;> trivial
+  · -- Wifi
+    have hser := Wifi.wifi_parse_serializable cls b x inner hc hb hx
+    cases x with
+    | dot11 d =>
+      obtain ⟨hside, hlink, hname⟩ := dot11_parse_facts cls b d inner hc hx
+      exact ⟨hgood.1, hser, fun r _ => hside r, hlink, hname, trivial, (hside []).2⟩
+    | eapol e =>
+      obtain ⟨hk, hlink, hname⟩ := eapol_parse_facts_all cls b e inner hx
+      exact ⟨hgood.1, hser, fun r hr => ⟨hk, hr.1, hr.2⟩, hlink, hname, trivial, trivial⟩
+    | radiotap t =>
+      obtain ⟨hcls, hp⟩ := wifi_parse_radiotap cls b t inner hx
+      obtain ⟨hside, hlink⟩ := radiotap_parse_facts b t inner hp
+      exact ⟨hgood.1, hser, fun _ _ => hside, hlink, .inl hcls, trivial, trivial⟩
 
-/-- the first layer of a parsed chain is of the class whose constructor was called, and an IP / IPv6 header's version is
-    the first nibble of the buffer -/
-def HeadOfA (cls : String) (b : Bytes) (h : AnyObj) : Prop := h.info.1 = cls ∧ NibOf h b
+/-- the first layer of a parsed chain is of a class the entry `cls` reaches (`EntryName`: the class itself, or the one a
+    factory entry selected from the bytes), an IP / IPv6 header's version is the first nibble of the buffer, and the layer
+    is of a class of the covered families -/
+def HeadOfA (cls : String) (b : Bytes) (h : AnyObj) : Prop := EntryName cls h ∧ NibOf h b ∧ (isRaw h = false → Coverable h)
 
 /-- **what libtins accepts is representable** (up to `Residual`): a chain the nested parsing constructors build is
     `StackableAll` -/
@@ -229,37 +252,28 @@ theorem parse_stackable_all : ∀ (fuel : Nat) (cls : String) (b : Bytes) (os : 
           intro rest hos
           subst hos
           have hr : Residual o rest := hres.1
-          cases o with
-          | raw p => exact .inr ⟨p, rfl, L2.parseOne_raw_inv cls b p inner hp⟩
-          | l2 z =>
-            have hf := parseOne_firstOK cls b (.l2 z) inner hb trivial (fun z' e => by injection e with e; subst e; exact hr) hp
+          cases ho : isRaw o with
+          | true =>
+            cases o with
+            | raw p => exact .inr ⟨p, rfl, L2.parseOne_raw_inv cls b p inner hp⟩
+            | _ => cases ho
+          | false =>
+            have hf := parseOne_firstOK cls b o inner hb ho (fun z e => by subst e; exact hr) hp
             exact .inl ⟨rfl, hf, hf.side rest hr⟩
-          | ip z =>
-            have hf := parseOne_firstOK cls b (.ip z) inner hb trivial (fun z' e => by cases e) hp
-            exact .inl ⟨rfl, hf, hf.side rest hr⟩
-          | ip6 z =>
-            have hf := parseOne_firstOK cls b (.ip6 z) inner hb trivial (fun z' e => by cases e) hp
-            exact .inl ⟨rfl, hf, hf.side rest hr⟩
-          | tr z =>
-            have hf := parseOne_firstOK cls b (.tr z) inner hb trivial (fun z' e => by cases e) hp
-            exact .inl ⟨rfl, hf, hf.side rest hr⟩
-          | icmp z =>
-            have hf := parseOne_firstOK cls b (.icmp z) inner hb trivial (fun z' e => by cases e) hp
-            exact .inl ⟨rfl, hf, hf.side rest hr⟩
-          | app z => exact hr.elim
-          | wifi z => exact hr.elim
         cases inner with
         | none =>
           injection h with h
           subst h
           rcases hfirst [] rfl with ⟨hx, hf, hside⟩ | ⟨p, rfl, hc, _⟩
-          · refine ⟨(stackableAll_cons hx).mpr ⟨⟨hf.inv, hf.ser, hside, hf.link⟩, trivial⟩, _, _, rfl, hf.name, hf.nib⟩
-          · exact ⟨rfl, _, _, rfl, hc.symm, trivial⟩
+          · exact ⟨(stackableAll_cons hx).mpr ⟨⟨hf.inv, hf.ser, hside, hf.link⟩, trivial⟩, _, _, rfl, hf.name, hf.nib,
+              fun _ => hf.cov⟩
+          · exact ⟨rfl, _, _, rfl, .inl hc, trivial, fun h => by cases h⟩
         | raw pb =>
           injection h with h
           subst h
           rcases hfirst [.raw pb] rfl with ⟨hx, hf, hside⟩ | ⟨p, rfl, _, hi⟩
-          · refine ⟨(stackableAll_cons hx).mpr ⟨⟨hf.inv, hf.ser, hside, hf.link⟩, rfl⟩, _, _, rfl, hf.name, hf.nib⟩
+          · exact ⟨(stackableAll_cons hx).mpr ⟨⟨hf.inv, hf.ser, hside, hf.link⟩, rfl⟩, _, _, rfl, hf.name, hf.nib,
+              fun _ => hf.cov⟩
           · cases hi
         | cls name pb fb =>
           simp only at h
@@ -272,15 +286,16 @@ theorem parse_stackable_all : ∀ (fuel : Nat) (cls : String) (b : Bytes) (os : 
             rcases hfirst ls rfl with ⟨hx, hf, hside⟩ | ⟨p, rfl, _, hi⟩
             · rcases ih name pb ls (by omega) hrec hres.2 with ⟨hst, hd, t, rfl, hhd⟩
               obtain ⟨_, hnr, hlk⟩ := hf.link
-              have hrd : Residual hd t := hres.2.1
-              have hcovd : Coverable hd := by
-                rcases residual_cases hd t hrd with hraw | hc
-                · cases hd with
-                  | raw p => exact absurd hhd.1.symm hnr
-                  | _ => cases hraw
-                · exact hc
-              exact ⟨(stackableAll_cons hx).mpr ⟨⟨hf.inv, hf.ser, hside, hlk hd t hhd.1 hcovd hhd.2⟩, hst⟩, _, _, rfl,
-                hf.name, hf.nib⟩
+              have hdraw : isRaw hd = false := by
+                cases hd with
+                | raw p =>
+                  exfalso
+                  rcases hhd.1 with hh | hh
+                  · exact hnr hh
+                  · exact hh.elim
+                | _ => rfl
+              exact ⟨(stackableAll_cons hx).mpr ⟨⟨hf.inv, hf.ser, hside, hlk hd t hhd.1 (hhd.2.2 hdraw) hhd.2.1⟩, hst⟩, _, _, rfl,
+                hf.name, hf.nib, fun _ => hf.cov⟩
             · cases hi
           | unmodelled c => rw [hrec] at h; cases h
           | fault s => rw [hrec] at h; cases h
@@ -312,8 +327,7 @@ theorem c03_all (cls : String) (b : Bytes) (os : List AnyObj) (hb : b.length < 4
       ∃ os', parseChain (out.length + 2) cls out = .ok os' ∧ ViewEqAll (padAll os) os os' := by
   rcases parse_stackable_all _ cls b os hb hparse hres with ⟨hst, h, t, rfl, hhd⟩
   rcases stackableAll_serializes _ hst with ⟨out, hser, _⟩
-  rcases chain_reparse_all h t hst out hser with ⟨os', hp, hv⟩
-  rw [hhd.1] at hp
+  rcases chain_reparse_all_named cls h t hhd.1 hst out hser with ⟨os', hp, hv⟩
   exact ⟨out, hser, os', hp, hv⟩
 
 /-- … and through IP / IPv6 the payload comes back byte for byte, whatever minimum-frame padding the link layer added -/
